@@ -1209,7 +1209,9 @@ func buildMessageFieldSchema(pkg *Package, context fieldContext, src protoreflec
 
 func buildEnumFieldSchema(pkg *Package, context fieldContext, src protoreflect.FieldDescriptor, ext protoFieldExtensions) (*EnumField, error) {
 	ref, didExist := newRefPlaceholder(pkg.PackageSet, src.Enum())
-	if !didExist {
+	if !didExist || ref.To == nil {
+		// enums do not recurse: an unlinked placeholder is left over from an
+		// earlier failed build, which must fail again rather than be used.
 		built, err := pkg.buildEnum(src.Enum())
 		if err != nil {
 			return nil, err
